@@ -38,6 +38,31 @@ CUR = None          # the Sim the module-level proxies talk to
 BLOCK_CAP = 40      # blocking sleeps tolerated on one live pid before the environment ends the spin
 
 
+def ref_signum(v):
+    """Reference reading of a signal designation (independent of circus.util.to_signum): number, numeric
+    string, or a name of the signal module with or without SIG, any case.  -2 = not a designation."""
+    if isinstance(v, bool):
+        return -2
+    if isinstance(v, int):
+        return v
+    if not isinstance(v, str):
+        return -2
+    t = v.strip()
+    try:
+        return int(t)
+    except ValueError:
+        pass
+    name = t.upper()
+    if not name.startswith("SIG"):
+        name = "SIG" + name
+    if name.startswith("SIG_"):
+        return -2
+    val = getattr(_signal, name, None)
+    if isinstance(val, _signal.Signals):
+        return int(val)
+    return -2
+
+
 class _OsProxy(object):
     def __getattr__(self, name):
         return getattr(_real_os, name)
@@ -242,10 +267,22 @@ class Sim(object):
                                           warmup_delay=self.warmup_delay)
         self.rec("init", cfg=self.header())
 
+    @staticmethod
+    def polls(G):
+        """number of 0.1 s polls kill_process makes before escalating (the code's own float arithmetic)"""
+        n, waited = 0, 0
+        while waited < G:
+            n += 1
+            waited += 0.1
+        return n
+
     def header(self):
         return {"cd": int(round(self.check_delay * 1000)) if self.check_delay > 0 else -1,
                 "wg": int(round(self.warmup_delay * 1000)),
+                "cdt": int(round(self.check_delay * 10)) if self.check_delay > 0 else -1,
+                "wgt": int(round(self.warmup_delay * 10)),
                 "ws": [{"n": s["name"], "np": s["np"], "G": int(round(s["G"] * 1000)),
+                        "Gp": self.polls(s["G"]), "Wt": int(round(s["W"] * 10)), "retry": s["max_retry"],
                         "W": int(round(s["W"] * 1000)), "sing": bool(s["singleton"]),
                         "resp": bool(s["respawn"]), "auto": bool(s["autostart"]), "prio": s["priority"],
                         "ssig": s["stop_signal"], "sch": bool(s["stop_children"]),
@@ -506,12 +543,16 @@ class Sim(object):
              "hasname": "name" in pr, "mid": str(mid or ("m%d" % self.req_seq))
              if mid is not False else "", "waiting": bool(pr.get("waiting")), "cast": bool(cast),
              "pid": self.kernel.short(_i(pr.get("pid"), 0)) if "pid" in pr else -1,
-             "signum": _i(pr.get("signum")) if "signum" in pr else -1,
+             "signum": ref_signum(pr.get("signum")) if "signum" in pr else -1,
              "children": bool(pr.get("children")), "recursive": bool(pr.get("recursive")),
              "childpid": self.kernel.short(_i(pr.get("childpid"), 0)) if "childpid" in pr else -1,
              "nb": _i(pr.get("nb", 1), 1),
              "G": int(round(float(pr["graceful_timeout"]) * 1000)) if isinstance(
                  pr.get("graceful_timeout"), (int, float)) else -1,
+             "Gp": self.polls(float(pr["graceful_timeout"])) if isinstance(
+                 pr.get("graceful_timeout"), (int, float)) else -1,
+             "setnp": _i((pr.get("options") or {}).get("numprocesses"), -99)
+             if isinstance(pr.get("options"), dict) and "numprocesses" in pr["options"] else -99,
              "nostop": bool(pr.get("nostop")), "graceful": bool(pr.get("graceful", True)),
              "sequential": bool(pr.get("sequential")), "start": bool(pr.get("start")),
              "raw": raw_given}
